@@ -388,11 +388,11 @@ def sx_to_coq(x) -> str:
     if tag == "UnaryOp":
         return "(UnaryOp %s %s)" % (x[1], sx_to_coq(x[2]))
     if tag == "BinOp":
-        return "(BinOp %s %s %s)" % (x[1], sx_to_coq(x[2]), sx_to_coq(x[3]))
+        return "(BinOp B%s %s %s)" % (x[1], sx_to_coq(x[2]), sx_to_coq(x[3]))
     if tag == "BoolOp":
         return "(BoolOp %s %s)" % (x[1], _clist(map(sx_to_coq, x[2])))
     if tag == "Compare":
-        return "(Compare %s %s %s)" % (sx_to_coq(x[1]), _clist(x[2]), _clist(map(sx_to_coq, x[3])))
+        return "(Compare %s %s %s)" % (sx_to_coq(x[1]), _clist(["C" + o for o in x[2]]), _clist(map(sx_to_coq, x[3])))
     if tag == "IfExp":
         return "(IfExp %s %s %s)" % tuple(sx_to_coq(a) for a in x[1:4])
     if tag in ("Tuple", "List"):
